@@ -300,3 +300,74 @@ def guarded_reach(ctx, starts, is_target_call, guard_atoms, max_funcs=200):
                 continue
             stack.append((g, path + [(f.qname, n.lineno, "%s %s" % (kind, g.name))]))
     return None
+
+
+def returns_deferred(prog, func, _seen=None):
+    """Heuristic, conservative towards True: may calling `func` return a
+    Deferred?  inlineCallbacks generators do; so do functions returning a
+    value they registered callbacks on, a Deferred()-like constructor result,
+    or the result of another such function; overriding methods count."""
+    _seen = _seen or set()
+    if func is None:
+        return True
+    if func.qname in _seen:
+        return False
+    _seen = _seen | {func.qname}
+    if func.is_inline_callbacks:
+        return True
+    deferred_names = set()
+    for n in walk_body_shallow(func.body):
+        if isinstance(n, ast.Call) and isinstance(n.func, ast.Attribute) and n.func.attr in REG_METHODS:
+            c = attr_chain(n.func.value)
+            if c:
+                deferred_names.add(c)
+        if isinstance(n, ast.Assign) and isinstance(n.value, ast.Call):
+            nm = call_name(n.value)
+            if nm in ("Deferred", "maybeDeferred", "DeferredList", "deferLater", "succeed", "fail") or (
+                    returns_deferred(prog, prog.resolve_call(func, n.value), _seen)
+                    if prog.resolve_call(func, n.value) is not None else False):
+                for t in n.targets:
+                    c = attr_chain(t)
+                    if c:
+                        deferred_names.add(c)
+    for n in walk_body_shallow(func.body):
+        if isinstance(n, ast.Return) and n.value is not None:
+            c = attr_chain(n.value)
+            if c and c in deferred_names:
+                return True
+            if isinstance(n.value, ast.Call):
+                nm = call_name(n.value)
+                if nm in ("Deferred", "maybeDeferred", "DeferredList", "deferLater", "succeed", "fail"):
+                    return True
+                g = prog.resolve_call(func, n.value)
+                if g is not None and returns_deferred(prog, g, _seen):
+                    return True
+                if g is None and isinstance(n.value.func, ast.Attribute) and n.value.func.attr in REG_METHODS:
+                    return True
+    # overriding methods in subclasses
+    if func.cls is not None and func.parent is None:
+        for sub in prog.subclasses(func.cls):
+            if func.name in sub.methods and returns_deferred(prog, sub.methods[func.name], _seen):
+                return True
+    return False
+
+
+def real_suspension(prog, func):
+    """Predicate for CFG.must_facts: a yield suspends only if the yielded
+    expression may be Deferred-like."""
+    def pred(node):
+        for x in node.walk():
+            if isinstance(x, ast.Yield):
+                v = x.value
+                if v is None:
+                    continue
+                if isinstance(v, ast.Call):
+                    g = prog.resolve_call(func, v)
+                    if g is None:
+                        return True
+                    if returns_deferred(prog, g):
+                        return True
+                    continue
+                return True
+        return False
+    return pred
